@@ -320,11 +320,11 @@ def rule_prov(ctx, f):
             if x0 in seenl:
                 continue
             seenl.add(x0)
-            for d0 in fl.defs.get(x0, []):
-                if d0[0] == "assign" and d0[2][0] == "use" and F.op_local(d0[2][1]) is not None:
-                    st0.append(F.op_local(d0[2][1]))
-                if d0[0] == "assign" and d0[2][0] in ("ref", "rawptr"):
-                    st0.append(d0[2][1][0])
+            for dq in fl.defs.get(x0, []):
+                if dq[0] == "assign" and dq[2][0] == "use" and F.op_local(dq[2][1]) is not None:
+                    st0.append(F.op_local(dq[2][1]))
+                if dq[0] == "assign" and dq[2][0] in ("ref", "rawptr"):
+                    st0.append(dq[2][1][0])
         for bi2, t2 in F.calls(b):
             if last_seg(F.callee_name(t2)) in ("truncate", "resize", "pop", "remove", "drain", "retain", "clear", "swap_remove", "dedup", "split_off", "sort", "reverse", "push", "insert", "extend") \
                     and t2["args"]:
